@@ -52,6 +52,13 @@ Proof.
     auto 6; try (right; right; eauto).
 Qed.
 
+(** operator codes whose result is not above the top-most operand: all but
+    (Substitute, id) = [39 + id] (DD/Quant.v) *)
+Definition lvl_code (code : N) : bool := N.ltb code 39.
+
+Lemma lvl_code_op : forall o, lvl_code (op_code o) = true.
+Proof. destruct o; reflexivity. Qed.
+
 Section Safe.
 Variable terms : list (N * N).
 Variable nl : nat.
@@ -243,20 +250,22 @@ Variable cadd : C -> N -> list ref -> ref -> C.
 Variable par : nat -> bool.
 Hypothesis Hlossy : lossy cget cadd.
 
-(** every entry: result and operands stored, result not above the top-most operand *)
+(** every entry: result and operands stored; result not above the top-most operand
+    (except for substitution entries, whose replacement functions may sit anywhere) *)
 Definition COK (t : ctable) (c : C) : Prop :=
   forall code args h, cget c code args = Some h ->
-    stored t h /\ (forall r, In r args -> stored t r) /\ minlvl t args <= crlevel t h.
+    stored t h /\ (forall r, In r args -> stored t r) /\
+    (lvl_code code = true -> minlvl t args <= crlevel t h).
 
 Lemma COK_ext : forall s s' c, ext s s' -> COK (cn s) c -> COK (cn s') c.
 Proof.
   intros s s' c X H code args h G. destruct (H code args h G) as [Sh [Sa L]].
   split; [eapply ext_stored; eauto|]. split; [intros r Hr; eapply ext_stored; eauto|].
-  rewrite (ext_minlvl s s' args X Sa), (ext_crlevel s s' h X Sh). exact L.
+  intros Hl. rewrite (ext_minlvl s s' args X Sa), (ext_crlevel s s' h X Sh). exact (L Hl).
 Qed.
 
 Lemma COK_add : forall t c code args h, COK t c -> stored t h ->
-  (forall r, In r args -> stored t r) -> minlvl t args <= crlevel t h ->
+  (forall r, In r args -> stored t r) -> (lvl_code code = true -> minlvl t args <= crlevel t h) ->
   COK t (cadd c code args h).
 Proof.
   intros t c code args h H Sh Sa L code' args' h' G.
@@ -316,7 +325,7 @@ Proof.
     rewrite Hd in *. destruct R as [_ [X _]]. cbn [safe].
     split; [|split; [eapply ext_stored; eauto | rewrite (ext_crlevel s2 s3 t X St); lia]].
     apply COK_add; [eapply COK_ext; eauto | eapply ext_stored; eauto | intros r Hr; eapply ext_stored; eauto |].
-    rewrite (ext_minlvl s2 s3 args X Sa), (ext_crlevel s2 s3 t X St). lia.
+    intros _. rewrite (ext_minlvl s2 s3 args X Sa), (ext_crlevel s2 s3 t X St). lia.
   - pose proof (o_goi_enabled s2 lvl t e H Hl St Se ltac:(lia) ltac:(lia) Eq H2) as G.
     destruct (o_goi s2 lvl t e) as [s3 h|s3|]; [| |destruct G].
     + destruct G as [id [nd [-> [F L]]]]. destruct R as [_ [X _]]. cbn [safe].
@@ -324,7 +333,7 @@ Proof.
       assert (Lh : crlevel (cn s3) (RN id) = lvl) by (simpl; rewrite F; exact L).
       split; [|split; [exact Sh | lia]].
       apply COK_add; [eapply COK_ext; eauto | exact Sh | intros r Hr; eapply ext_stored; eauto |].
-      rewrite (ext_minlvl s2 s3 args X Sa). lia.
+      intros _. rewrite (ext_minlvl s2 s3 args X Sa). lia.
     + destruct R as [_ [X _]]. unfold OomOwn.err. simpl. eapply COK_ext; eauto.
 Qed.
 
@@ -405,7 +414,7 @@ Proof.
     split; [exact Hc|]. split; [apply (term_of_stored _ _ _ T) | lia].
   - pose proof Sf as Sf'. apply stored_RN in Sf'. destruct Sf' as [nd F]. rewrite F.
     destruct (cget c code_not [RN id]) as [h|] eqn:G.
-    + destruct (Hc _ _ _ G) as [Sh [_ L]]. apply clone_ret_safe; auto.
+    + destruct (Hc _ _ _ G) as [Sh [_ L]]. specialize (L eq_refl). apply clone_ret_safe; auto.
     + destruct (node_children s id nd H F) as [Hl [ft [fe [Ech [_ [_ [St [Se [Lt Le]]]]]]]]].
       rewrite Ech.
       assert (Lf : crlevel (cn s) (RN id) = cl nd) by (simpl; rewrite F; reflexivity).
@@ -466,7 +475,7 @@ Proof.
     assert (Lab : minlvl (cn s) [a; b] = minlvl (cn s) [RN i; RN j]).
     { destruct Hab as [[-> ->]|[-> ->]]; rewrite !minlvl2; lia. }
     destruct (cget c (op_code o) [a; b]) as [h|] eqn:G.
-    + destruct (Hc _ _ _ G) as [Sh [_ L]]. apply clone_ret_safe; auto. lia.
+    + destruct (Hc _ _ _ G) as [Sh [_ L]]. specialize (L (lvl_code_op o)). apply clone_ret_safe; auto. lia.
     + cbn [cinner]. rewrite Ff, Fg.
       pose proof (stored_level_lt KBdd terms nl s i fnode H Ff) as Lf.
       pose proof (stored_level_lt KBdd terms nl s j gnode H Fg) as Lg.
@@ -534,7 +543,7 @@ Proof.
     destruct bh; apply Bin; auto; rewrite minlvl2; lia.
   - rewrite Vg, Vh.
     destruct (cget c code_ite [RN i; RN j; RN k]) as [r|] eqn:G.
-    + destruct (Hc _ _ _ G) as [Sr [_ L]]. apply clone_ret_safe; auto.
+    + destruct (Hc _ _ _ G) as [Sr [_ L]]. specialize (L eq_refl). apply clone_ret_safe; auto.
     + pose proof Sf as Sf'. apply stored_RN in Sf'. destruct Sf' as [fnode Ff].
       pose proof Sg as Sg'. apply stored_RN in Sg'. destruct Sg' as [gnode Fg].
       pose proof Sh as Sh'. apply stored_RN in Sh'. destruct Sh' as [hnode Fh].
